@@ -16,6 +16,11 @@ def run(tier, seed):
     with open(vec, "w") as sink:
         g = vlib.must_hold(vlib.tlc("JsonMemory", "Gen_JsonMemory.cfg", workers=8, sink=sink, defines={"MaxSteps": steps}, timeout=3000), "histories")
     ck.add_mc(g, "Gen_JsonMemory")
+    ck.notes["histories"] = g.vectors
+    # wide mode: the ownership clauses on every type shape of JsonTypes with its documents and values
+    with open(vec, "a") as sink:
+        gt = vlib.must_hold(vlib.tlc("JsonTypes", "Gen_JsonTypes.cfg", workers=8, sink=sink, tag="JsonTypes-c10"), "shapes")
+    ck.add_mc(gt, "Gen_JsonTypes(for C10)")
     ck.binary = vlib.build_harness()
     rr = vlib.run_harness(ck.binary, PROP, vec, seed=seed, tier=tier, shards=4, timeout=3000)
     os.unlink(vec)
@@ -25,7 +30,11 @@ def run(tier, seed):
     ck.rule = ("TLC enumerates every history of %d steps over marshal / unmarshal(input, zero-copy or not) / decode / tokstring / overwrite(input) / "
                "churn with 2 lent inputs and predicts after each step which results may have changed; each history is executed on the real package "
                "with snapshots of every result (strings, Numbers, RawMessages, []byte, map keys, interface contents, Encoder output) and of every "
-               "lent input. distinct_nontrivial = histories replayed" % steps)
+               "lent input; plus, for every type shape of spec/JsonTypes.tla (depth 2, all kinds) and each of its documents (valid, mutated, null at "
+               "every position, quoted numbers with leading zeros and escapes) and values: the lent input is unchanged after Parse (flag subsets) / "
+               "Unmarshal / Tokenizer / Valid, decoded values keep their contents under further calls and (without zero-copy flags) under overwriting "
+               "of the input, and the results of Marshal / Append / Encoder.Encode - outputs above 64 KiB included - keep theirs. "
+               "distinct_nontrivial = histories + shapes replayed" % steps)
     ck.assumptions = ["a Decoder is only used without zero-copy flags (with them its own read buffer is 'the input', which the property leaves open)",
                       "churn = 64 Marshal calls, 8 Encoder.Encode calls and up to 9 further Decodes incl. a value larger than the read buffer"]
     return ck.finish()
